@@ -374,6 +374,11 @@ func (r Reason) In(reasons ...Reason) (ok bool) { return slices.Contains(reasons
 
 // SetEnabled sets the status of the *DNSFilter.
 func (d *DNSFilter) SetEnabled(enabled bool) {
+	// The whole configuration, including this field, is copied under confMu
+	// by WriteDiskConfig, so only change it under that lock.
+	d.confMu.Lock()
+	defer d.confMu.Unlock()
+
 	atomic.StoreUint32(&d.conf.enabled, mathutil.BoolToNumber[uint32](enabled))
 }
 
@@ -392,6 +397,13 @@ func (d *DNSFilter) Settings() (s *Settings) {
 
 // WriteDiskConfig - write configuration
 func (d *DNSFilter) WriteDiskConfig(c *Config) {
+	// The copy of the whole configuration below also reads the fields that
+	// are protected by filtersMu: the filter lists, the custom rules, and the
+	// filtering settings.  So take filtersMu first, as the code that enables
+	// the filters does.
+	d.conf.filtersMu.RLock()
+	defer d.conf.filtersMu.RUnlock()
+
 	func() {
 		d.confMu.Lock()
 		defer d.confMu.Unlock()
@@ -399,9 +411,6 @@ func (d *DNSFilter) WriteDiskConfig(c *Config) {
 		*c = *d.conf
 		c.Rewrites = cloneRewrites(c.Rewrites)
 	}()
-
-	d.conf.filtersMu.RLock()
-	defer d.conf.filtersMu.RUnlock()
 
 	c.Filters = slices.Clone(d.conf.Filters)
 	c.WhitelistFilters = slices.Clone(d.conf.WhitelistFilters)
